@@ -219,8 +219,16 @@ def main(argv=None):
             continue
         seen_sig.add(sig)
         todo.append((cfg, v))
-    max_replays = int(os.environ.get("TLV_MAX_REPLAYS", "40"))
-    todo = todo[:max_replays]
+    # at most two counterexamples per (configuration, assertion) are replayed, so that a noisy one cannot crowd out the others
+    per, picked = {}, []
+    for cfg, v in todo:
+        k = (cfg.get("name"), v["label"])
+        per[k] = per.get(k, 0) + 1
+        if per[k] <= 2:
+            picked.append((cfg, v))
+    max_replays = int(os.environ.get("TLV_MAX_REPLAYS", "160"))
+    unreplayed = max(0, len(picked) - max_replays)
+    todo = picked[:max_replays]
     rr = _run_pool([(modname, c, v) for c, v in todo], _replay_worker, a.jobs) if todo else []
     n_new = 0
     for (cfg, v), r in zip(todo, rr):
@@ -268,6 +276,8 @@ def main(argv=None):
                 c.get("name"), json.dumps(v)[:300], json.dumps(r, default=str)[:300]) for c, v, r in unconfirmed[:5]]
         if unreached:
             problems += ["assertion site never reached (vacuity): " + s for s in unreached]
+        if unreplayed:
+            problems.append("%d counterexamples were not replayed (cap)" % unreplayed)
         if val_disagree:
             problems += ["model validation disagreement: " + s for s in val_disagree[:5]]
         if agg["paths"] == 0 and not getattr(meta, "NO_PATHS_OK", False):
